@@ -17,6 +17,7 @@ import (
 	"os"
 	"time"
 
+	"github.com/33cn/chain33/client"
 	"github.com/33cn/chain33/common/log"
 	_ "github.com/33cn/chain33/system"
 	"github.com/33cn/chain33/types"
@@ -66,16 +67,23 @@ func stopMiner(m *testnode.Chain33Mock) {
 	_ = cl.Send(msg, false)
 }
 
+// noAPI: never called (the RPC server of the test node does not listen).
+type noAPI struct{ client.QueueProtocolAPI }
+
 func crashNode() *testnode.Chain33Mock {
 	cfg := types.NewChain33Config(types.GetDefaultCfgstring())
 	mc := cfg.GetModuleConfig()
 	mc.BlockChain.Driver = "crashleveldb"
 	mc.Store.Driver = "crashleveldb"
 	mc.Wallet.Driver = "memdb"
-	m := testnode.NewWithConfig(cfg, nil)
+	// A non-nil API makes testnode skip its wallet set-up (seed, key imports).  The imports start
+	// background rescans that query the blockchain while blocks are being (dis)connected, and
+	// wallet.GetTxDetailByHashs dereferences a nil Transaction when a listed transaction has just
+	// been removed by a disconnect: the process dies.  The wallet is not part of this property.
+	m := testnode.NewWithConfig(cfg, noAPI{})
 	quiet()
 	stopMiner(m)
-	deadline := time.Now().Add(30 * time.Second)
+	deadline := time.Now().Add(60 * time.Second)
 	for m.GetBlockChain().GetBlockHeight() < 0 {
 		if time.Now().After(deadline) {
 			panic("genesis block not created")
@@ -234,12 +242,6 @@ func deliverAll(m *testnode.Chain33Mock, blocks []*types.Block, order []int) (st
 					pan = fmt.Sprint(e)
 				}
 			}()
-			t1 := time.Now()
-			defer func() {
-				if os.Getenv("VERIF_C29_TIMING") != "" {
-					fmt.Fprintln(os.Stderr, "deliver", i, time.Since(t1))
-				}
-			}()
 			_, _, _, err := chain.ProcessBlock(false, &types.BlockDetail{Block: types.Clone(blocks[i]).(*types.Block)}, "peer1", true, 0)
 			steps = append(steps, errClass(err))
 		}()
@@ -275,14 +277,9 @@ func childMain(role string) {
 			os.Exit(3)
 		}
 	}()
-	t0 := time.Now()
 	m := crashNode()
-	if os.Getenv("VERIF_C29_TIMING") != "" {
-		fmt.Fprintln(os.Stderr, "node up", time.Since(t0))
-		defer func() { fmt.Fprintln(os.Stderr, "done", time.Since(t0)) }()
-	}
 	cfg := m.GetClient().GetConfig()
-	if string(m.GetBlock(0).Hash(cfg)) != string(blocks[0].Hash(cfg)) {
+	if g0, err := m.GetBlockChain().GetBlock(0); err != nil || string(g0.Block.Hash(cfg)) != string(blocks[0].Hash(cfg)) {
 		panic("different genesis block")
 	}
 	switch role {
